@@ -100,6 +100,8 @@ PRIM = {"Z": ("Zahl", "Zahlen", "f"), "K": ("Kommazahl", "Kommazahlen", "f"), "B
 
 
 def tname(t):
+    if "alias" in t:
+        return t["alias"]
     if "g" in t:
         return t["g"]
     if "b" in t:
@@ -117,6 +119,8 @@ def tname(t):
 
 
 def tgender(t):
+    if "alias" in t:
+        return "f"
     if "g" in t:
         return "n"
     if "b" in t:
@@ -349,9 +353,9 @@ def rstructs(structs, public=False):
 
 def render_with_lib(P, libfuncs):
     """functions named in libfuncs (and all Kombinationen) live in the imported module lib.ddp; returns {file: text}"""
-    lib = ['Binde "Duden/Ausgabe" ein.', ""] + rstructs(P["structs"], public=True) + rfuncs([f for f in P["funcs"] if f["n"] in libfuncs], public=True)
+    lib = ['Binde "Duden/Ausgabe" ein.', ""] + list(P.get("typedecls", [])) + rstructs(P["structs"], public=True) + rfuncs([f for f in P["funcs"] if f["n"] in libfuncs], public=True)
     n = P.get("nearly", 0)
-    main = ['Binde "Duden/Ausgabe" ein.', 'Binde "lib" ein.', ""] + rstmts(P["main"][:n], 0) + [""] + rfuncs([f for f in P["funcs"] if f["n"] not in libfuncs]) + rstmts(P["main"][n:], 0)
+    main = ['Binde "Duden/Ausgabe" ein.', 'Binde "lib" ein.', ""] + list(P.get("main_decoys", [])) + rstmts(P["main"][:n], 0) + [""] + rfuncs([f for f in P["funcs"] if f["n"] not in libfuncs]) + rstmts(P["main"][n:], 0)
     return {"lib.ddp": "\n".join(lib) + "\n", "main.ddp": "\n".join(main) + "\n"}
 
 
@@ -370,7 +374,7 @@ def rparamtype(p):
 
 def render(P, extern_funcs=()):
     """P: program dict (structs, funcs, main, nearly). Returns DDP source text."""
-    lines = ['Binde "Duden/Ausgabe" ein.', ""]
+    lines = ['Binde "Duden/Ausgabe" ein.', ""] + list(P.get("typedecls", []))
     for sd in P["structs"]:
         lines.append("Wir nennen die Kombination aus")
         for f in sd["fields"]:
